@@ -74,6 +74,20 @@ def update_property_values(fname):
                 encoder = prop["encoder"]
                 checksum = prop["checksum"]
 
+                # refuse before anything is changed if the name of a property
+                # that has to be created for the extra attributes is taken
+                # (the old values are deleted below)
+                needed = [(".uncertainty", len(set(uncertainty)) > 1),
+                          (".reference", any(reference)),
+                          (".filename", any(filename)),
+                          (".encoder", any(encoder)),
+                          (".checksum", any(checksum))]
+                for suffix, isneeded in needed:
+                    if isneeded and propname + suffix in hfile:
+                        raise ValueError("Cannot convert Property {}: the "
+                                         "name {} is already in use".format(
+                                             propname, propname + suffix))
+
                 # replace base prop
                 values = prop["value"]
                 definition = prop.attrs.get("definition")
